@@ -132,7 +132,7 @@ Definition show_range (r : range) : bytes :=
   | RInt f (Some l) => b "int:" ++ show_N f ++ b ":" ++ show_N l
   | RSuffix l => b "suffix:" ++ show_N l
   end.
-Definition show_parse (s : bytes) : bytes :=
+Definition show_range_parse (s : bytes) : bytes :=
   match parse s with Some r => b "ok:" ++ show_range r | None => b "err" end.
-Definition show_check (r : range) (full : N) : bytes :=
+Definition show_range_check (r : range) (full : N) : bytes :=
   match check r full with Some (a, c) => b "ok:" ++ show_N a ++ b ":" ++ show_N c | None => b "err" end.
